@@ -3,7 +3,8 @@
  * editor.  A fixed buffer with eight occurrences of "ab"; symbolic start position; K search commands
  * chosen by the solver; then a marker is typed at the cursor.  Model: the sorted list of occurrences;
  * forward = first one after the cursor, backward = last one before it, no wrap-around; n repeats in the
- * direction of the last / or ?, N in the opposite one; a search that finds nothing leaves the cursor.
+ * direction of the last / or ?, N in the opposite one; a search that finds nothing leaves the cursor;
+ * /ab/+1 lands on the line after the match and n, N keep that line offset, ^A does not.
  */
 #include "vih.h"
 #ifndef K
@@ -33,11 +34,33 @@ static int bwd(int *r, int *o)
 		}
 	return 1;
 }
+/* ^A: the word under the cursor, searched forward as a whole word (no line offset whatever the last search had) */
+static const char *LN[5] = {"ab x ab", "cab ab", "ababab", "ab", "b/ b\\"};
+static int wordch(int c) { return (c >= 'a' && c <= 'z') || (c >= 'A' && c <= 'Z') || (c >= '0' && c <= '9') || c == '_'; }
+static int curword_fwd(int *r, int *o)
+{
+	const char *l = LN[*r];
+	int b = *o, e = *o, i, j, wl;
+	while (wordch(l[e]))
+		e++;
+	while (b > 0 && wordch(l[b - 1]))	/* (a word that ends just before the cursor counts, as in vi_curword) */
+		b--;
+	if (b >= e)
+		return 1;
+	wl = e - b;
+	for (i = *r; i < 5; i++)
+		for (j = i == *r ? *o + 1 : 0; LN[i][j]; j++)
+			if (!strncmp(LN[i] + j, l + b, wl) && (j == 0 || !wordch(LN[i][j - 1])) && !wordch(LN[i][j + wl])) {
+				*r = i; *o = j;
+				return 0;
+			}
+	return 1;
+}
 void harness(void)
 {
-	static const char *menu[] = {"/ab\n", "?ab\n", "n", "N", "/\n", "?\n", "2n", "2N", "2/ab\n", "/b\\\\/\n"};
+	static const char *menu[] = {"/ab\n", "?ab\n", "n", "N", "/\n", "?\n", "2n", "2N", "2/ab\n", "/b\\\\/\n", "/ab/+1\n", "\001"};
 	char keys[96];
-	int kn, r, o, k, dir = 0, set = 0, i;
+	int kn, r, o, k, dir = 0, set = 0, i, soset = 0;
 	env_mkfile("f", FILE0, strlen(FILE0), 5);
 	r = symx_conc(symx_u8("row") % 5);
 	o = symx_u8("off");
@@ -46,10 +69,17 @@ void harness(void)
 	kn = sprintf(keys, "%dG%d|", r + 1, o + 1);
 	for (k = 0; k < K; k++) {
 		int c = symx_u8("cmd"), n = 1, d;
-		symx_assume(c < 10 && (set || c < 2 || c >= 8));	/* the first search must give a pattern */
-		symx_assume(c != 9 || k == K - 1);			/* the backslash pattern only as the last search */
+		symx_assume(c < 12 && (set || c < 2 || c >= 8));	/* the first search must give a pattern */
+		symx_assume((c != 9 && c != 11) || k == K - 1);		/* the backslash pattern and ^A (they change the pattern) only as the last search */
 		c = symx_conc(c);
 		kn += sprintf(keys + kn, "%s", menu[c]);
+		if (c == 11) {		/* ^A */
+			curword_fwd(&r, &o);
+			continue;
+		}
+		if (c == 0 || c == 1 || c == 4 || c == 5 || c == 8 || c == 9)
+			soset = 0;	/* a search typed without a line offset */
+		if (c == 10) { dir = 1; soset = 1; }
 		if (c == 0 || c == 4 || c == 8) dir = 1;
 		if (c == 1 || c == 5) dir = -1;
 		set = 1;
@@ -63,6 +93,11 @@ void harness(void)
 			int tr = r, to = o, fail = 0;
 			for (i = 0; i < n && !fail; i++)
 				fail = d > 0 ? fwd(&tr, &to) : bwd(&tr, &to);
+			if (!fail && soset) {	/* /ab/+1: the line after the match, at its first non-blank character */
+				if (tr + 1 >= 5)
+					fail = 1;
+				else { tr++; to = 0; }
+			}
 			if (!fail) { r = tr; o = to; }	/* a count that cannot be satisfied leaves the cursor */
 		}
 	}
